@@ -259,6 +259,15 @@ pub fn presentation(rng: &mut Rng, set: &BTreeSet<String>) -> Vec<String> {
         let x = rng.pick(&v).clone();
         v.push(x);
     }
+    // now and then a list that is long only because of its duplicates (size-triggered code paths see the
+    // length of the list, the property only its set)
+    if rng.chance(1, 25) {
+        let target = *rng.pick(&[300usize, 520, 1100, 2100]);
+        while v.len() < target {
+            let x = rng.pick(&v).clone();
+            v.push(x);
+        }
+    }
     rng.shuffle(&mut v);
     v
 }
